@@ -100,6 +100,10 @@ def lin(x):
     raise OutsideFragment("not an arithmetic value: %r" % (x,))
 
 
+INTEGER_TYPES = ("int", "unsigned int", "long", "unsigned long", "long long", "unsigned long long", "short", "unsigned short", "char",
+                 "unsigned char", "size_t", "std::size_t")
+
+
 class Evaluator:
     def __init__(self, prog, hooks=None, max_depth=12):
         self.prog = prog
@@ -250,6 +254,13 @@ class Evaluator:
             v = self.expr(ch[-1] if k in EXPLICIT_CASTS else ch[0], env, depth)
             if k == "ImplicitCastExpr" and e.get("castKind") == "IntegralToBoolean" and isinstance(v, Lin) and v.is_const():
                 return v.c != 0
+            if k in EXPLICIT_CASTS or (k == "ImplicitCastExpr" and e.get("castKind") == "IntegralCast"):
+                # enum <-> integer conversions (`static_cast<int>(o)` indexing a lookup table, and back)
+                tt = ((e.get("type") or {}).get("desugaredQualType") or qt(e)).replace("const ", "").strip()
+                if isinstance(v, EnumVal) and tt in INTEGER_TYPES:
+                    return Lin(v.value)
+                if isinstance(v, Lin) and v.is_const() and tt in self.enum_values and float(v.c).is_integer():
+                    return EnumVal(tt, int(v.c))
             return v
         ch = children(e)
         if k == "DeclRefExpr":
@@ -261,6 +272,15 @@ class Evaluator:
                 return EnumVal(qt(e), v)
             if d.get("id") in env:
                 return env[d.get("id")]
+            if d.get("kind") == "VarDecl" and "_p" in d and (d.get("constexpr") or qt(d).startswith("const ") or " const" in qt(d)) and \
+                    (d.get("_p") or {}).get("kind") in ("NamespaceDecl", "TranslationUnitDecl", "CXXRecordDecl", "DeclStmt"):
+                # a named constant / constant lookup table: its initialiser is its value
+                init = children(d)
+                if init:
+                    memo = self.__dict__.setdefault("_const_memo", {})
+                    if d.get("id") not in memo:
+                        memo[d.get("id")] = self.expr(init[-1], {}, depth + 1)
+                    return memo[d.get("id")]
             raise OutsideFragment("free variable %s at line %s" % (d.get("name"), _line(e)))
         if k == "IntegerLiteral":
             return Lin(int(e.get("value")))
@@ -363,6 +383,17 @@ class Evaluator:
             raise OutsideFragment("constructor call")
         if k == "ArraySubscriptExpr" and "subscript" in self.hooks:
             return self.hooks["subscript"](self, {"obj": ch[0], "args": [ch[1]]}, e, env, depth)
+        if k == "InitListExpr":
+            return ["initlist"] + [self.expr(c, env, depth) for c in ch]
+        if k == "ArraySubscriptExpr":
+            base = self.expr(ch[0], env, depth)
+            idx = self.expr(ch[1], env, depth)
+            if isinstance(base, list) and base and base[0] == "initlist" and isinstance(idx, Lin) and idx.is_const() and float(idx.c).is_integer():
+                i = int(idx.c)
+                if 0 <= i < len(base) - 1:
+                    return base[i + 1]
+                raise OutsideFragment("constant table read out of range at line %s" % _line(e))
+            raise OutsideFragment("subscript of a non-constant table at line %s" % _line(e))
         if k == "MemberExpr" and "member" in self.hooks:
             return self.hooks["member"](self, e, env, depth)
         raise OutsideFragment("%s at line %s" % (k, _line(e)))
